@@ -11,6 +11,8 @@ open Hv.Lock
 structure Sess where
   key : String
   short : Bool
+  /-- arrival number on its own key (the lock id when ids are per-queue tickets) -/
+  ticket : Nat := 0
   held : Bool := false
   cancelled : Bool := false
   acquired : Bool := false
@@ -21,6 +23,7 @@ structure DSt where
   cfg : Cfg
   gw : GwCfg
   withoutCancel : Bool
+  idsUnique : Bool := true
   keys : List (String × St) := []
   sess : List Sess := []
 
@@ -75,12 +78,13 @@ def stepLine (d : DSt) (line : String) : DSt × String :=
   | "lock" :: k :: ttl :: rest =>
     let hold := rest == ["hold"]
     let n := d.sess.length + 1
-    let d := { d with sess := d.sess ++ [{ key := k, short := ttl == "short", held := hold }] }
+    let tk := (d.sess.filter (·.key == k)).length + 1
+    let d := { d with sess := d.sess ++ [{ key := k, short := ttl == "short", ticket := tk, held := hold }] }
     let d := applyAct d k (.enqueue n)
     if hold then out d k s!"enq {n} held"
     else if n ∈ (getKey d k).q.ready then
       let d := applyAct d k (.acquire n)
-      let d := setSess d n { key := k, short := ttl == "short", acquired := true }
+      let d := setSess d n { key := k, short := ttl == "short", ticket := tk, acquired := true }
       out d k s!"enq {n} acq"
     else out d k s!"enq {n} wait"
   | "go" :: ns :: obs =>
@@ -126,6 +130,25 @@ def stepLine (d : DSt) (line : String) : DSt × String :=
       let res := if unlockOk (getKey d k) n then "ok" else "err"
       let d := applyAct d k (.unlock n)
       out (settle d k) k s!"unlock {n} {res}"
+  | ["unlockx", ns, k] =>
+    match ns.toNat?.bind (fun n => (getSess d n).map (fun x => (n, x))) with
+    | none => (d, "skip")
+    | some (n, x) =>
+      if !x.acquired || x.key == k then (d, "skip") else
+      if d.idsUnique then out d k s!"unlockx {n} {k} err"
+      else
+        -- per-queue tickets: the id names whoever has the same arrival number on key `k`
+        let victim := (List.range d.sess.length).find? fun i =>
+          match d.sess[i]? with
+          | some y => y.key == k && y.ticket == x.ticket && decide ((i + 1) ∈ (getKey d k).q.callers)
+          | none => false
+        match victim with
+        | none => out d k s!"unlockx {n} {k} err"
+        | some i =>
+          let s := getKey d k
+          let d := setKey d k { s with q := (s.q.rem d.cfg (i + 1)).1 }
+          let (d, msg) := out (settle d k) k s!"unlockx {n} {k} ok"
+          (d, msg ++ "\t#F:C14-foreign-id-unlock")
   | ["unlockraw", k, _] => out d k "unlockraw err"
   | ["expire", ns] =>
     match ns.toNat?.bind (fun n => (getSess d n).map (fun x => (n, x))) with
@@ -154,7 +177,8 @@ def run (args : List String) : IO UInt32 := do
   let kv := parseArgs args
   let cfg : Cfg := { wake := parseWake (arg kv "wake"), wakeOnlyIfHead := arg kv "wakeOnlyIfHead" != "no" }
   let gw : GwCfg := { ttlThresh := ((arg kv "ttlThresh").toInt?).getD 0, ttlFloor := ((arg kv "ttlFloor").toInt?).getD 0 }
-  lineLoop stepLine { cfg := cfg, gw := gw, withoutCancel := arg kv "gwWithoutCancel" != "no" }
+  lineLoop stepLine { cfg := cfg, gw := gw, withoutCancel := arg kv "gwWithoutCancel" != "no",
+                      idsUnique := arg kv "idSource" != "perQueueCounter" }
   return 0
 
 end Driver.C14
